@@ -26,6 +26,7 @@ pub struct Monitors {
     pub links: bool,
     pub fifo: bool,
     pub routing: bool,
+    pub placement: bool,
 }
 
 pub struct JobCheck {
@@ -42,7 +43,7 @@ impl JobCheck {
     fn opts(&self, tier: Tier, shrinking: bool) -> RunOpts {
         let m = self.monitors;
         RunOpts {
-            probes: m.grammar || m.per_iteration || m.alignment || m.loop_state || m.fifo || m.routing,
+            probes: m.grammar || m.per_iteration || m.alignment || m.loop_state || m.fifo || m.routing || m.placement,
             stamp: m.alignment || m.fifo || m.routing,
             match_links: m.links,
             record_links: m.routing,
@@ -87,6 +88,9 @@ impl JobCheck {
                 .map(|e| e.0)
                 .collect();
             mon::stamped_fifo(&g, &edges, &bc)?;
+        }
+        if m.placement {
+            mon::placement(&g, &crate::reference::static_replication(job), &run.layout_cores)?;
         }
         if m.routing {
             let st = mon::routing(run)?;
@@ -314,6 +318,18 @@ pub fn c03() -> JobCheck {
                 rep.class_if(s.multi_downstream >= 1, "run:producer_with_2_downstream_blocks");
             }
         },
+    }
+}
+
+pub fn c19_run() -> JobCheck {
+    JobCheck {
+        id: "C19",
+        profile: || Profile { name: "c19run", w_repart: 34, w_diamond: 10, w_with: 8, w_replay: 5, w_iterate: 4, max_input: 60, ..Profile::base() },
+        monitors: Monitors { placement: true, ..Monitors::default() },
+        k: (3, 4),
+        cases: (160, 4000),
+        nontrivial: |f, _j, c, _r| c.layout.n_hosts() >= 2 && f.repartitions >= 2,
+        classes: no_classes,
     }
 }
 
